@@ -75,13 +75,13 @@ func genF6(g *fw.GenCtx, em *emitter) {
 	for _, p := range f6Programs() {
 		main := f6Backend + p.main + "sub vcl_recv {\n#FASTLY RECV\n" + p.recv + "\nreturn(pass);\n}\n"
 		// ServeHTTP, 2 requests on one instance
-		em.add(Exec{Fam: "F6", Con: p.con, Mode: "http", Main: main, Mods: p.mods, Reqs: []string{stdReq("/a"), stdReq("/b")}, Bound: true, Tag: p.con})
+		em.add(Exec{Fam: "F6", Con: p.con, Mode: "http", Main: main, Mods: p.mods, Reqs: []string{stdReq("/a"), stdReq("/b")}, Bound: true, Tag: p.con, Iso: true})
 		// `falco test` mechanics: main VCL initialised, the include statement inside the driven subroutine
 		body := p.recv
 		if body == "" {
 			body = "log \"x\";"
 		}
-		em.add(Exec{Fam: "F6", Con: p.con, Mode: "sub", Scope: "RECV", Main: f6Backend + p.main + mainTail, Body: body, Mods: p.mods, Bound: true, Tag: p.con})
+		em.add(Exec{Fam: "F6", Con: p.con, Mode: "sub", Scope: "RECV", Main: f6Backend + p.main + mainTail, Body: body, Mods: p.mods, Bound: true, Tag: p.con, Iso: true})
 	}
 	em.flush()
 }
